@@ -167,13 +167,39 @@ func successfulMethodPassesThrough(c *core.Ctx, rule, rel, typeName, method, fie
 		return
 	}
 	recv := recvOf(m)
+	var storesAlways func(h *ssa.Function, depth int) bool
 	isFieldStore := func(in ssa.Instruction) bool {
+		if ci, isCall := in.(ssa.CallInstruction); isCall {
+			// a private method of the same receiver that updates the field on every path
+			h := ci.Common().StaticCallee()
+			if h != nil && h.Blocks != nil && h != m && h.Signature.Recv() != nil && len(ci.Common().Args) > 0 &&
+				facts.Term(facts.Resolve(ci.Common().Args[0])) == facts.Term(recv) && len(privateCallSites(h)) > 0 {
+				return storesAlways(h, 2)
+			}
+			return false
+		}
 		st, ok := in.(*ssa.Store)
 		if !ok {
 			return false
 		}
 		base, fld, isF := facts.FieldOf(st.Addr)
 		return isF && fld == field && facts.Term(facts.Resolve(base)) == facts.Term(recv)
+	}
+	storesAlways = func(h *ssa.Function, depth int) bool {
+		if depth <= 0 || len(h.Blocks) == 0 {
+			return false
+		}
+		hrecv := recvOf(h)
+		isStore := func(in ssa.Instruction) bool {
+			st, ok := in.(*ssa.Store)
+			if !ok {
+				return false
+			}
+			base, fld, isF := facts.FieldOf(st.Addr)
+			return isF && fld == field && hrecv != nil && facts.Term(facts.Resolve(base)) == facts.Term(hrecv)
+		}
+		_, free := facts.ReachesFrom(h.Blocks[0], 0, facts.IsExit, isStore, nil)
+		return !free
 	}
 	isOKRet := func(in ssa.Instruction) bool {
 		r, ok := in.(*ssa.Return)
